@@ -1,5 +1,5 @@
 """Property -> rules, and the texts that go into MANIFEST.json / evidence."""
-from .rules import formulas, version, layout, opcodes as o, engine as e, glue, registry, safety, slices, fmt
+from .rules import formulas, version, layout, opcodes as o, engine as e, glue, registry, safety, slices, fmt, concurrency as cc
 
 TECH = "repository-specific static analysis"
 BASE_ASSUME = [
@@ -256,10 +256,48 @@ PROPS = {
         technique="static analysis: who-may-call over resolved call sites, dominance (pop before call), lock-coverage at every caller, boolean implication of guards",
         design_ref="DESIGN.md section 4, C17",
     ),
+    "C03": S(
+        [slices.slc4, e.eng1, e.eng34, cc.eng6, e.truth1] + version.API,
+        explanation="Thin: structural necessary conditions of 'the frames are the path an exception would take'. The three built-in unwrappers, as truth tables over the tests they make: a suspended generator / coroutine / "
+                    "async generator unwraps to (its frame, what it delegates to) in that order, with attributes of its own family that exist on every supported interpreter (SLC-4, VER-5, VER-5b); unwrap results take the "
+                    "unwrapped item's place in order, one level deeper, and the queue is drained before a frame is elaborated (ENG-3, ENG-4); the only bound on the chain is the counter of unwraps *without progress*, reset at every "
+                    "frame (ENG-1: chains of any depth); the block conditional on with_contexts neither leaves the iteration nor touches the queues (ENG-6: same frames with contexts on or off); hook results are never tested "
+                    "for truthiness (TRUTH-1).",
+        decides=["SLC-4", "ENG-1", "ENG-3", "ENG-4", "ENG-6", "TRUTH-1", "VER-5"],
+        not_decided=["that the run-time object graph (cr_await / gi_yieldfrom / gc.get_referents) links the frames an exception would traverse", "line numbers", "leaf and root values"],
+        assumptions=BASE_ASSUME + FACT_ASSUME,
+        level_text="Thin static check: necessary structural conditions of the chain walk only; equality with the exception path is not decided.",
+        level_note="Thin.",
+        technique="static analysis: truth tables of the unwrappers (abstract evaluation under boolean assignments), queue-discipline rules on the engine's CFG, attribute existence vs interpreter fact tables",
+        design_ref="DESIGN.md section 13.4",
+    ),
+    "C14": S(
+        cc.C14 + [safety.thr2, e.opt56] + version.API,
+        explanation="Thin: structural necessary conditions in the Trio glue. A nursery context's obj is manager._nursery and its children are exactly [extract_child(t, for_task=True) for t in that nursery's child_tasks] "
+                    "(unfiltered, in order); a Task unwraps to task.coro (TRIO-1); extract_child(for_task=True) returns a stub exactly when recursion was not requested (OPT-5/6); the worker thread of to_thread.run_sync is matched "
+                    "by identity of the name object, not by its value (THR-2); the search for the Trio runner skips thread-local dicts without a 'runner' entry instead of failing (TRIO-2).",
+        decides=["TRIO-1", "TRIO-2", "THR-2", "OPT-5", "OPT-6"],
+        not_decided=["isomorphism with Trio's live task tree", "stitching across thread hops for any alternation depth", "locals of Trio's own frames (a third-party implementation detail)"],
+        assumptions=BASE_ASSUME,
+        level_text="Thin static check: four structural clauses of the Trio glue; the tree isomorphism itself is not decided.",
+        level_note="Thin.",
+        technique="static analysis: shape / provenance rules on the Trio glue functions, truth table of extract_child's stub condition",
+        design_ref="DESIGN.md section 13.4",
+    ),
+    "C15": S(
+        cc.C15 + [slices.slc6],
+        explanation="Thin: unwrap_greenlet as a truth table over its four tests (no frame / alive / is the calling greenlet / has a parent): suspended -> StackSlice(inner=gr_frame); dead or unstarted -> no frames; "
+                    "running but not the caller's -> RuntimeError before anything is taken from the caller's own stack; the caller's greenlet -> its own part of the running stack (GRN-1); greenlet_getcurrent is greenlet's own "
+                    "getcurrent whenever greenlet is importable, the placeholder only under except ImportError (GRN-2); the walk through greenlet parents ends when there is no parent, not when a greenlet has no frame (SLC-6).",
+        decides=["GRN-1", "GRN-2", "SLC-6"],
+        not_decided=["greenback bridges (await_ / shim elaborators: run-time f_locals of third-party frames)", "frame identity along f_back chains", "finding F8"],
+        assumptions=BASE_ASSUME,
+        level_text="Thin static check: the lifecycle case table of unwrap_greenlet and two binding / walk clauses; greenback bridging is not decided.",
+        level_note="Thin.",
+        technique="static analysis: abstract evaluation of unwrap_greenlet under every assignment of its tests, binding-site rule, loop-control rule",
+        design_ref="DESIGN.md section 13.4",
+    ),
 }
 
 NOT_APPLICABLE = {
-    "C03": "quantifies over run-time object graphs (cr_await / gi_yieldfrom / gc.get_referents chains) and line numbers of an await/yield-from chain; the built-in unwrappers are one-liners already pinned by the suite; no structural clause adds a necessary condition the tests miss, and comparing with a thrown exception's traceback is execution, not static analysis",
-    "C14": "isomorphism with Trio's live task tree and thread hand-offs depends on Trio's run-time state and on locals of third-party frames; nothing in the shape of stackscope's code separates right from wrong",
-    "C15": "greenlet/greenback stacks are a case analysis over run-time gr_frame / parent / f_back values (finding F8 included); no sound static argument in reach bounds them",
 }
